@@ -59,7 +59,9 @@ def rand_formula(rnd):
 
 def rand_glycan(rnd):
     names = rnd.sample(["Hex", "HexNAc", "dHex", "Fuc", "NeuAc", "NeuGc", "Pent", "HexA", "HexN"], rnd.randint(1, 4))
-    return "Glycan:" + "".join(f"{n}{rnd.choice([1, 2, 3, 5, 11])}" for n in names)
+    if rnd.random() < 0.25:
+        names.append(rnd.choice(names))     # a name may be written twice: the counts add up
+    return "Glycan:" + "".join(f"{n}{rnd.choice([1, 2, 3, 5, 11, 0])}" for n in names)
 
 
 def generic_event(pp, tid, rnd):
